@@ -451,7 +451,9 @@ def executor(mode: str) -> XExecutor:
     ex.allowed_real_calls = False
     ex.exc_modules = [pickle]
     ex.natives.update({
-        "Path": n_path, "Path.mkdir": n_mkdir, "Path.with_suffix": n_with_suffix, "Path.with_name": n_with_suffix, "Path.exists": n_exists, "open": n_open, "File.__enter__": n_enter, "File.__exit__": n_exit,
+        "Path": n_path, "Path.mkdir": n_mkdir, "Path.with_suffix": n_with_suffix, "Path.with_name": n_with_suffix, "Path.exists": n_exists, "open": n_open,
+        "File.__enter__": n_enter, "File.__exit__": n_exit,
+        "Path.open": n_open, "Path.replace": n_replace, "Path.rename": n_replace,  # method spellings of open(path, mode) / os.replace(path, target)
         "pickle.dump": n_dump, "pickle.load": n_load, "tempfile.mkstemp": n_mkstemp, "os.fdopen": n_fdopen, "os.replace": n_replace,
         "isinstance": n_isinstance, "len": n_len, "str": n_str, "hash": n_hash, "int": n_int, "os.environ.get": n_environ_get,
         "hashlib.sha256": _uf1(SHA), "obj.hexdigest": _uf1(HEX), "obj.encode": _uf1(ENC), "obj.isdigit": n_isdigit, "obj.doit": _uf1(DOIT),
@@ -654,6 +656,29 @@ for n in kills:
         shutil.rmtree(d, ignore_errors=True)
 out["killed_writer"] = {"ok": not killed_bad, "input": f"perform_cached_doit({E}) killed inside pickle.dump after n bytes; then called again", "expected": str(E.doit()), "observed": killed_bad[:3], "kill_points": len(list(kills))}
 out["observer"] = {"ok": not seen, "input": "directory listing taken by a concurrent reader while the writer is inside pickle.dump", "expected": "every *.pkl is a complete pickle", "observed": sorted(set(seen))[:3]}
+# two writers of the SAME entry at the same time (threads of one process stand for two processes: the function keeps no process state):
+# both have written their scratch file before either moves it into place
+import threading
+d = fresh(); gate = threading.Barrier(2, timeout=5); both_dumped = threading.Barrier(2, timeout=5); conc = []
+def dump2(obj, fh, *a, **k):
+    real_dump(obj, fh, *a, **k); fh.flush()
+    try: both_dumped.wait()
+    except threading.BrokenBarrierError: pass
+def worker():
+    try: gate.wait()
+    except threading.BrokenBarrierError: pass
+    conc.append(call(E, d))
+_pickle_mod.dump = dump2
+try:
+    ts = [threading.Thread(target=worker) for _ in range(2)]
+    [t.start() for t in ts]; [t.join(60) for t in ts]
+finally:
+    _pickle_mod.dump = real_dump
+after = call(E, d)
+bad = [r[1] for r in conc + [after] if r != ("value", E.doit())]
+out["concurrent_writers_same_entry"] = {"ok": len(conc) == 2 and not bad, "input": f"two concurrent perform_cached_doit({E}) on one empty directory, both inside pickle.dump at the same time; then a third call",
+                                        "expected": str(E.doit()), "observed": bad[:3] or f"{len(conc)} of 2 calls returned"}
+shutil.rmtree(d, ignore_errors=True)
 print("RESULT " + json.dumps(out))
 '''
 
@@ -694,7 +719,7 @@ def search(model=None, tier="quick"):
     for seed in (None, "0"):
         r = scen_replay(seed, ["miss", "hit", "hit_dispersion_integral", "equal_str_different_phsp_factor", "equal_str_different_assumptions", "equal_hash_1/x_vs_1/x**2", "attribute_dict_same_keys_other_values",
                                "attribute_list_other_values", "truncated", "foreign",
-                               "legacy_record", "pair_record", "killed_writer", "observer"], tier)()
+                               "legacy_record", "pair_record", "killed_writer", "observer", "concurrent_writers_same_entry"], tier)()
         if r["reproduced"] or "error" in r:
             return r
     return r
@@ -792,7 +817,7 @@ def build(chk: Check) -> None:
         "open(<key>.pkl;'wb')": ["killed_writer", "observer"], "pickle.dump(...) into <key>.pkl": ["killed_writer", "observer"],
     }
     for label in order:
-        names = step_replays.get(label, ["observer", "killed_writer", "hit", "miss"])
+        names = step_replays.get(label, ["observer", "killed_writer", "concurrent_writers_same_entry", "hit", "miss"])
         chk.smt(f"perform_cached_doit.step[{label}].preserves_Inv", base_hyps, conj(dedupe(by_label[label])), function=F, replay=scen_replay(None, names, tier),
                 tactics=("default",), note="{Inv} step {Inv} and the step deletes no *.pkl (guarantee)")
     chk.extra["e3"]["atomic_steps"] = order
@@ -835,7 +860,7 @@ def build(chk: Check) -> None:
     chk.extra["e3"]["paths[arbitrary contents]"] = len(paths2)
     raises2 = [z3.Not(z3.And(*o.st.pc)) for _, _, o in paths2 if o.kind == "raise"]
     chk.smt("perform_cached_doit.never_raises[any content of the directory]", [], conj(raises2), function=F,
-            replay=scen_replay(None, ["truncated", "foreign", "killed_writer", "legacy_record"], tier), tactics=("default",),
+            replay=scen_replay(None, ["truncated", "foreign", "killed_writer", "legacy_record", "concurrent_writers_same_entry"], tier), tactics=("default",),
             note="no exception escapes because of the directory's contents: truncated, foreign, deleted or legacy files")
     hits2 = [z3.Implies(z3.And(*o.st.pc), (o.value.t if isinstance(o.value, SV) else ex.as_obj(o.value)) == DOIT(EXPR))
              for _, ex, o in paths2 if o.kind == "return" and "loaded" in o.st.ghost]
@@ -856,3 +881,8 @@ def build(chk: Check) -> None:
                      "attribute_dict_same_keys_other_values", "attribute_dict_other_keys", "attribute_list_other_values", "attribute_nested_list"):
             r = sc.get(name, {"ok": False, "observed": sc.get("error", "missing")})
             chk.struct(f"scenarios[{tagp}].collision[{name}].second_call_returns_its_own_doit", r["ok"], F, witness=r, replay=scen_replay(seed, [name], tier), bounded=True)
+        # damaged directories and concurrency, on the real function: a truncated / foreign / legacy file, a writer killed inside pickle.dump,
+        # a reader listing the directory during a write, two writers of the same entry at once
+        for name in ("truncated", "foreign", "legacy_record", "pair_record", "killed_writer", "observer", "concurrent_writers_same_entry"):
+            r = sc.get(name, {"ok": False, "observed": sc.get("error", "missing")})
+            chk.struct(f"scenarios[{tagp}].robust[{name}]", r["ok"], F, witness=r, replay=scen_replay(seed, [name], tier), bounded=True)
